@@ -121,7 +121,8 @@ RowsOf(h, k) ==
     [] c = "nonl"   -> << Row("raw", k, <<>>) >>
     [] c = "subc" -> << Row("raw", k, <<>>) >>
     [] c = "subp" -> IF k > 1 /\ h[k - 1].c = "subm" THEN << Row("subshort", k, <<>>) >> ELSE << >>
-    [] c \in {"other", "blank"} -> \* inside a header block the statement neither demands nor forbids the row
+    \* (a diffstat line is free text unless relative paths are requested: then its path is rewritten, see Trace_Stream)
+    [] c \in {"other", "blank", "stat"} -> \* inside a header block the statement neither demands nor forbids the row
                                    << Row(IF InHeader(h, k - 1) THEN "rawopt" ELSE "raw", k, <<>>) >>
     [] OTHER        -> << >>
 
